@@ -54,7 +54,9 @@ func EnsureTempDirectory(inDir string) (string, error) {
 // return bool value
 func DirExists(path string) bool {
 	fileInfo, err := os.Stat(path)
-	if err != nil && os.IsNotExist(err) {
+	if err != nil {
+		// not only "does not exist": a symbolic link loop, a parent that cannot be
+		// searched ... - there is no FileInfo to ask in any of these cases
 		return false
 	}
 
